@@ -1,0 +1,17 @@
+//! Verification hook (cargo feature `verif`): entry counts of every map of this index.
+//! The exhaustive destructuring makes a new field break this build until it is accounted for.
+use super::LuaSignatureIndex;
+
+impl LuaSignatureIndex {
+    pub fn verif_report(&self) -> Vec<(&'static str, usize)> {
+        let Self {
+            signatures,
+            in_file_signatures,
+        } = self;
+        vec![
+            ("signature.signatures", signatures.len()),
+            ("signature.in_file_signatures", in_file_signatures.len()),
+            ("signature.in_file_signatures.items", in_file_signatures.values().map(|v| v.len()).sum()),
+        ]
+    }
+}
